@@ -414,6 +414,8 @@ def extract_fn(relpath, qual, ann):
             ed.log.append({"file": relpath, "line": _srcline(src, s0), "rule": "R2", "note": pat + " -> " + rep})
             # same-length padding is not needed for line mapping (line-granular)
             text, segs = _subst(text, segs, pat, rep)
+    if auto_inline_map() and not ann.get("_no_inline"):
+        text = apply_auto_inline(text, relpath, ed.log)
     lm = line_map(text, segs, src)
     if ann.get("inherent") and parent and parent.get("trait"):
         ed.log.append({"file": relpath, "line": _srcline(src, s0), "rule": "R8",
@@ -421,6 +423,100 @@ def extract_fn(relpath, qual, ann):
     text, lm = wrap_parent(text, parent, lm, ann.get("inherent"))
     return text, lm, src, ed.log, labels, it
 
+
+
+# ---- D27: a call to a private helper the unit has no contract for (a helper extracted by a refactoring) is INLINED at the call ----
+# AUTO_INLINE maps a function name to the relpath of the file that defines it; it is filled by the driver after a first Verus run ended
+# with "cannot find function `X`" inside an extracted function, and the unit is then assembled once more. Accepted shapes only (else the
+# call is left alone and the run stays INCONCLUSIVE): `X(args)?` with X returning `Result<_, E>` where the body ends in `Ok(EXPR)` and has
+# no `return Ok(`; or `X(args)` with X returning a plain value and no `return` at all. The helper's text goes through the same R-rules.
+import threading
+_TL = threading.local()
+def auto_inline_map():
+    return getattr(_TL, 'm', None) or {}
+def set_auto_inline(m):
+    _TL.m = dict(m or {})
+
+
+def _match_paren(t, i):
+    depth = 0
+    for j in range(i, len(t)):
+        if t[j] in "([{": depth += 1
+        elif t[j] in ")]}":
+            depth -= 1
+            if depth == 0: return j
+    return -1
+
+
+def _strip_comments(t):
+    t = re.sub(r"/\*.*?\*/", " ", t, flags=re.S)
+    return re.sub(r"(?m)(^|[^:\"'])//[^\n]*", r"\1", t)
+
+
+def apply_auto_inline(text, relpath, log):
+    for name, hrel in list(auto_inline_map().items()):
+        rx = re.compile(r"(?<![\w.])(?:\w+::)*" + re.escape(name) + r"\s*\(")
+        pos = 0
+        while True:
+            m = rx.search(text, pos)
+            if not m: break
+            if re.search(r"\bfn\s+$", text[max(0, m.start() - 12):m.start()]):
+                pos = m.end(); continue
+            op = m.end() - 1
+            cl = _match_paren(text, op)
+            if cl < 0: break
+            args = [a.strip() for a in split_top_commas(text[op + 1:cl]) if a.strip()]
+            after = re.match(r"\s*\?", text[cl + 1:])
+            try:
+                htext, _lm, _src, hlog, _labels, hit = extract_fn(hrel, name, {"_no_inline": True})
+            except Exception as ex:
+                raise Inconclusive(f"D27: helper {name} of {hrel} cannot be extracted: {ex}")
+            htext = _strip_comments(htext)
+            hm = re.search(r"\bfn\s+" + re.escape(name) + r"\s*(<[^>]*>)?\s*\(", htext)
+            if not hm or hm.group(1): raise Inconclusive(f"D27: helper {name} is generic or has an unreadable signature")
+            pop = hm.end() - 1; pcl = _match_paren(htext, pop)
+            params = [x.strip() for x in split_top_commas(htext[pop + 1:pcl]) if x.strip()]
+            bop = htext.index("{", pcl); bcl = _match_paren(htext, bop)
+            ret = htext[pcl + 1:bop].strip()
+            ret = ret[2:].strip() if ret.startswith("->") else ""
+            body = htext[bop + 1:bcl].strip()
+            if len(params) != len(args) or any(p.split(":")[0].strip() in ("self", "&self", "&mut self") for p in params):
+                raise Inconclusive(f"D27: call of {name} does not match its parameter list")
+            # a closure WITH parameters inside the helper would need an annotation (its result is unknown to the verifier otherwise), a loop
+            # an invariant: nothing can be concluded about the caller then, and a failed clause would not mean a broken property
+            if re.search(r"\|\s*(mut\s+)?[A-Za-z_(&]", re.sub(r"\|\|", "", body)) or re.search(r"\b(for|while|loop)\b", body):
+                raise Inconclusive(f"D27: helper {name} contains a loop or a closure with parameters: it would need annotations the unit does not have")
+            is_res = bool(re.match(r"(Std)?Result\s*<", ret))
+            if is_res:
+                if not after or re.search(r"\breturn\s+Ok\b", body): raise Inconclusive(f"D27: helper {name} returns a Result that is not consumed by `?`, or returns Ok early")
+                b = body.rstrip()
+                if not b.endswith(")"): raise Inconclusive(f"D27: helper {name} does not end in Ok(..)")
+                depth = 0; to = -1
+                for q in range(len(b) - 1, -1, -1):
+                    if b[q] in ")]}": depth += 1
+                    elif b[q] in "([{":
+                        depth -= 1
+                        if depth == 0: to = q; break
+                pre = b[:to].rstrip() if to > 0 else ""
+                if not re.search(r"(^|[\s;}])Ok$", pre): raise Inconclusive(f"D27: helper {name} does not end in a plain Ok(..)")
+                body = pre[:-2] + " (" + b[to + 1:-1] + ")"
+                end = cl + 1 + after.end()
+            else:
+                if re.search(r"\breturn\b", body): raise Inconclusive(f"D27: helper {name} returns early")
+                end = cl + 1
+            pats, tys, vals = [], [], []
+            for prm, a in zip(params, args):
+                pn, ty = prm.split(":", 1)
+                pats.append(pn.strip()); tys.append(ty.strip())
+                vals.append("&mut *" + a if ty.strip().startswith("&mut") and not a.startswith("&mut") else a)
+            one = "{ let (" + ", ".join(pats) + ",): (" + ", ".join(tys) + ",) = (" + ", ".join(vals) + ",); " + body + " }"
+            one = re.sub(r"\s*\n\s*", " ", one)
+            nl = text[m.start():end].count("\n")
+            text = text[:m.start()] + one + "\n" * nl + text[end:]
+            pos = m.start() + len(one)
+            log.append({"file": relpath, "line": 0, "rule": "D27", "note": f"call of the private helper `{name}` ({hrel}) inlined: parameters bound to the arguments, body copied, `Ok(e)` tail becomes `e`" if is_res else f"call of the private helper `{name}` ({hrel}) inlined"})
+            log.extend(hlog)
+    return text
 
 _FUND_SUM_FILTERED = re.compile(rb"(?P<x>\w+(?:\s*\.\s*\w+)*)\s*\.\s*iter\(\)\s*\.\s*filter\(\s*\|(?P<a>\w+)\|\s*(?P=a)\.denom\s*==\s*(?P<d>[\w\.]+)\s*\)\s*\.\s*map\(\s*\|(?P<b>\w+)\|\s*(?P=b)\.amount\s*\)\s*\.\s*sum::<Uint128>\(\)")
 _FUND_SUM_ALL = re.compile(rb"(?P<x>\w+(?:\s*\.\s*\w+)*)\s*\.\s*iter\(\)\s*\.\s*map\(\s*\|(?P<b>\w+)\|\s*(?P=b)\.amount\s*\)\s*\.\s*sum::<Uint128>\(\)")
@@ -1305,6 +1401,8 @@ def extract_segment(relpath, qual, ann):
             ed.log.append({"file": relpath, "line": _srcline(src, s0), "rule": "M4", "note": f"`{nm}` is no longer declared inside the range: taken as an arbitrary parameter of `{ann['seg_name']}`"})
     head = f"pub fn {name}({params}) -> ({retname}: {rett})\n" + "".join(spec) + "{\n" + (ann.get("head", "").rstrip() + "\n" if ann.get("head") else "")
     tailtxt = ("\n" + ann["seg_tail"].rstrip() if ann.get("seg_tail") else "") + "\n}\n"
+    if auto_inline_map():
+        body_text = apply_auto_inline(body_text, relpath, ed.log)
     lm0 = line_map(body_text, segs, src)
     text = head + body_text + tailtxt
     lm = [None] * head.count("\n") + lm0 + [None] * (tailtxt.count("\n") + 1)
